@@ -641,6 +641,9 @@ def fold_programs(rng: random.Random, n: int):
     firsts = [f"({u}{a})" for u in ("-", "~") for a in ("1U", "0xffffffffU", "0x80000000U", "5", "0", "0x7fffffff", "1ULL", "0x80000000")]
     firsts += [f"({a} {op} {b})" for op in ("+", "-", "*") for a, b in (("2U", "0x80000000U"), ("0", "1U"), ("0xffffffffU", "2"), ("0x10000", "0x10000U"), ("1", "2U"), ("0xffffffff", "0xffffffff"),
                                                                          ("3U", "0x55555556U"), ("5", "7"), ("0x7fffffffU", "0x7fffffffU"), ("4294967296", "2U"))]
+    # unary operator on a folded binary result (the literal that is finally spelled must fit its type)
+    firsts += [f"({u}({a} {op} {b}))" for u in ("-", "~") for op, a, b in (("-", "256ULL", "0xffffULL"), ("-", "0", "1U"), ("*", "2U", "0x80000000U"), ("+", "0xffffffffffffffffULL", "2"),
+                                                                         ("-", "1LL", "0x7fffffffffffffffLL"), ("+", "0x7fffffff", "1U"), ("-", "5", "7"))]
     for f in firsts:
         for k, tl in enumerate(tails):
             T(f"fold2;{f};{k}", f"{{ RddV = {f} {tl}; }}", vk="fold2")
